@@ -198,7 +198,7 @@ class ShowdownMonitor(Monitor):
                     else:
                         t.show_or_muck_hole_cards(True)
             drain()
-            for name, args in ctx.script:
+            for name, args, *_ in ctx.script:
                 if name == 'show_or_muck_hole_cards':
                     continue
                 getattr(t, name)(*driver.decode_args(args))
